@@ -29,6 +29,8 @@ pub enum PeerOp {
     Wait,
     /// a short pause
     Pause(u8),
+    /// (storescp script) a C-STORE command followed by a non-last data fragment only
+    PartialStore(u16),
 }
 
 #[derive(Clone, Debug, Serialize, Deserialize, PartialEq)]
@@ -51,7 +53,7 @@ const IMPLICIT: &str = "1.2.840.10008.1.2";
 
 fn peer_pdu(op: &PeerOp, i: usize) -> Option<PduIr> {
     Some(match op {
-        PeerOp::PData(n) => PduIr::PData { pdvs: vec![Pdv { pc_id: 1, command: false, last: true, data: payload(*n as u32 % 3000, i as u8) }] },
+        PeerOp::PData(n) | PeerOp::PartialStore(n) => PduIr::PData { pdvs: vec![Pdv { pc_id: 1, command: false, last: true, data: payload(*n as u32 % 3000, i as u8) }] },
         PeerOp::ReleaseRq => PduIr::ReleaseRq,
         PeerOp::ReleaseRp => PduIr::ReleaseRp,
         PeerOp::Abort => PduIr::Abort { source: 0, reason: 0 },
@@ -480,6 +482,16 @@ fn check_scp(root: &std::path::Path, c: &ScpCase, obs: &mut Obs) {
                 break;
             }
             PeerOp::Wait | PeerOp::Pause(_) => std::thread::sleep(Duration::from_millis(3)),
+            PeerOp::PartialStore(n) => {
+                // a store request whose data set never completes: nothing is to be answered,
+                // and the association must still react to what follows
+                obs.class("partial-store-before-next-action");
+                let cmd = ulpeer::cstore_rq("1.2.840.10008.5.1.4.1.1.7", &format!("1.2.3.{}", i + 1), i as u16 + 1);
+                let _ = p.send(&PduIr::PData { pdvs: vec![Pdv { pc_id: 1, command: true, last: true, data: cmd }] });
+                if p.send(&PduIr::PData { pdvs: vec![Pdv { pc_id: 1, command: false, last: false, data: payload(1 + *n as u32 % 500, i as u8) }] }).is_err() {
+                    break;
+                }
+            }
         }
     }
     let _ = ended;
@@ -515,6 +527,7 @@ fn peer_ops(max: usize) -> BoxedStrategy<Vec<PeerOp>> {
         1 => Just(PeerOp::Close),
         3 => Just(PeerOp::Wait),
         2 => any::<u8>().prop_map(PeerOp::Pause),
+        2 => any::<u16>().prop_map(PeerOp::PartialStore),
     ];
     proptest::collection::vec(op, 0..max).boxed()
 }
@@ -531,7 +544,7 @@ pub fn run(ctx: &Ctx) {
     let root = ctx.root.clone();
     ctx.run_prop(
         "storescp_vs_scripted_requestor",
-        "the real dicom-storescp binary (sync and --non-blocking) against a requestor played by the harness: after association a generated script of {C-ECHO request, A-RELEASE-RQ, A-RELEASE-RP, A-ABORT, unknown PDU, half a PDU, close}; oracle: a release request is answered by a release reply followed by the end of the stream; after an abort nothing but the end of the stream; no unsolicited release reply; C-ECHO answered during data transfer; the (single-threaded) listener serves the next association afterwards; non-trivial = the script contains a release request or abort",
+        "the real dicom-storescp binary (sync and --non-blocking) against a requestor played by the harness: after association a generated script of {C-ECHO request, unfinished C-STORE (command + non-last data fragment), A-RELEASE-RQ, A-RELEASE-RP, A-ABORT, unknown PDU, half a PDU, close}; oracle: a release request is answered by a release reply followed by the end of the stream; after an abort nothing but the end of the stream; no unsolicited release reply; C-ECHO answered during data transfer; the (single-threaded) listener serves the next association afterwards; non-trivial = the script contains a release request or abort",
         || (any::<bool>(), peer_ops(6)).prop_map(|(non_blocking, script)| ScpCase { non_blocking, script }).boxed(),
         ctx.cases(800, 15_000),
         move |c: &ScpCase, obs: &mut Obs| check_scp(&root, c, obs),
